@@ -86,6 +86,18 @@ Proof. exact ch0_readable_is_drain. Qed.
 Theorem C05_ch0_readable_source_is_model : forall (ext_st : string -> list val -> val -> val * val) (slot : val) (RS : core -> val -> Prop) (RM : msg -> val -> Prop) (RR : outcome -> val -> Prop), (forall m s : val, (exists u : val, snd (ext_st "self.process_channel_message" [VN 0; m] s) = VC "Ok" [u]) \/ (exists e : val, snd (ext_st "self.process_channel_message" [VN 0; m] s) = VC "Err" [e])) -> (forall (c : core) (s : val), RS c s -> RS (fst (rcv_core c)) (fst (rcv_v ext_st slot s)) /\ step_rel RM RR (snd (rcv_core c)) (snd (rcv_v ext_st slot s))) -> (forall (m : msg) (mv : val) (c : core) (s : val), RM m mv -> RS c s -> RS (fst (proc_core m c)) (fst (proc_v ext_st mv s)) /\ opt_rel RR (snd (proc_core m c)) (snd (proc_v ext_st mv s))) -> RR OOk VStuck -> forall (fuel : nat) (c : core) (self : val), RS c self -> RS (snd (ch0_readable fuel c)) (fst (gen_Inner_handle_channel0_readable ext_st fuel self slot)) /\ RR (fst (ch0_readable fuel c)) (snd (gen_Inner_handle_channel0_readable ext_st fuel self slot)).
 Proof. exact ch0_readable_source_is_model. Qed.
 
+(* Inner::handle_channel_readable (the drain of a channel's mailbox, translated from src/io_loop/mod.rs on every run; the #[cfg(amiquip_verif)] hook statement is not part of it) is the generic loop `drain` whose receive step is: out-buffer above the high-water mark -> owe a re-poll and return Ok BEFORE anything else; no slot (stale wake-up) -> Ok; otherwise try_recv on the slot's mailbox *)
+Theorem C05_chan_drain_source_is_drain : forall (ext_st : string -> list val -> val -> val * val) (id high : val), (forall m s : val, (exists u : val, snd (ext_st "self.process_channel_message" [id; m] s) = VC "Ok" [u]) \/ (exists e : val, snd (ext_st "self.process_channel_message" [id; m] s) = VC "Err" [e])) -> forall (fuel : nat) (self : val), gen_Inner_handle_channel_readable ext_st fuel self id high = drain (rcv_v2 ext_st id high) (proc_v2 ext_st id) VStuck fuel self.
+Proof. exact chan_drain_source_is_drain. Qed.
+
+(* Model/Core.v's chan_readable is the same generic loop over the model's state *)
+Theorem C05_chan_readable_is_drain : forall (n : N) (fuel : nat) (c : core), chan_readable fuel n c = (let '(c', o) := drain (rcv_core2 n) (proc_core2 n) OOk fuel c in (o, c')).
+Proof. exact chan_readable_is_drain. Qed.
+
+(* ... so under any relation between model state and translated state that the externals preserve, the translated handle_channel_readable and chan_readable end in related states with related results *)
+Theorem C05_chan_readable_source_is_model : forall (ext_st : string -> list val -> val -> val * val) (n : N) (id high : val) (RS : core -> val -> Prop) (RM : msg -> val -> Prop) (RR : outcome -> val -> Prop), (forall m s : val, (exists u : val, snd (ext_st "self.process_channel_message" [id; m] s) = VC "Ok" [u]) \/ (exists e : val, snd (ext_st "self.process_channel_message" [id; m] s) = VC "Err" [e])) -> (forall (c : core) (s : val), RS c s -> RS (fst (rcv_core2 n c)) (fst (rcv_v2 ext_st id high s)) /\ step_rel RM RR (snd (rcv_core2 n c)) (snd (rcv_v2 ext_st id high s))) -> (forall (m : msg) (mv : val) (c : core) (s : val), RM m mv -> RS c s -> RS (fst (proc_core2 n m c)) (fst (proc_v2 ext_st id mv s)) /\ opt_rel RR (snd (proc_core2 n m c)) (snd (proc_v2 ext_st id mv s))) -> RR OOk VStuck -> forall (fuel : nat) (c : core) (self : val), RS c self -> RS (snd (chan_readable fuel n c)) (fst (gen_Inner_handle_channel_readable ext_st fuel self id high)) /\ RR (fst (chan_readable fuel n c)) (snd (gen_Inner_handle_channel_readable ext_st fuel self id high)).
+Proof. exact chan_readable_source_is_model. Qed.
+
 (* non-vacuity of C05_releases_*: in a reachable state with two channels and a consumer on
    each, every queue has a live sender; after the thread's state is dropped none has *)
 Example C05_example :
@@ -128,6 +140,9 @@ Check C05_pass_source_is_model : forall (fired : list (hbkind * bool)) (c : core
 Check C05_ch0_drain_source_is_drain : forall (ext_st : string -> list val -> val -> val * val) (slot : val), (forall m s : val, (exists u : val, snd (ext_st "self.process_channel_message" [VN 0; m] s) = VC "Ok" [u]) \/ (exists e : val, snd (ext_st "self.process_channel_message" [VN 0; m] s) = VC "Err" [e])) -> forall (fuel : nat) (self : val), gen_Inner_handle_channel0_readable ext_st fuel self slot = drain (rcv_v ext_st slot) (proc_v ext_st) VStuck fuel self.
 Check C05_ch0_readable_is_drain : forall (fuel : nat) (c : core), ch0_readable fuel c = (let '(c', o) := drain rcv_core proc_core OOk fuel c in (o, c')).
 Check C05_ch0_readable_source_is_model : forall (ext_st : string -> list val -> val -> val * val) (slot : val) (RS : core -> val -> Prop) (RM : msg -> val -> Prop) (RR : outcome -> val -> Prop), (forall m s : val, (exists u : val, snd (ext_st "self.process_channel_message" [VN 0; m] s) = VC "Ok" [u]) \/ (exists e : val, snd (ext_st "self.process_channel_message" [VN 0; m] s) = VC "Err" [e])) -> (forall (c : core) (s : val), RS c s -> RS (fst (rcv_core c)) (fst (rcv_v ext_st slot s)) /\ step_rel RM RR (snd (rcv_core c)) (snd (rcv_v ext_st slot s))) -> (forall (m : msg) (mv : val) (c : core) (s : val), RM m mv -> RS c s -> RS (fst (proc_core m c)) (fst (proc_v ext_st mv s)) /\ opt_rel RR (snd (proc_core m c)) (snd (proc_v ext_st mv s))) -> RR OOk VStuck -> forall (fuel : nat) (c : core) (self : val), RS c self -> RS (snd (ch0_readable fuel c)) (fst (gen_Inner_handle_channel0_readable ext_st fuel self slot)) /\ RR (fst (ch0_readable fuel c)) (snd (gen_Inner_handle_channel0_readable ext_st fuel self slot)).
+Check C05_chan_drain_source_is_drain : forall (ext_st : string -> list val -> val -> val * val) (id high : val), (forall m s : val, (exists u : val, snd (ext_st "self.process_channel_message" [id; m] s) = VC "Ok" [u]) \/ (exists e : val, snd (ext_st "self.process_channel_message" [id; m] s) = VC "Err" [e])) -> forall (fuel : nat) (self : val), gen_Inner_handle_channel_readable ext_st fuel self id high = drain (rcv_v2 ext_st id high) (proc_v2 ext_st id) VStuck fuel self.
+Check C05_chan_readable_is_drain : forall (n : N) (fuel : nat) (c : core), chan_readable fuel n c = (let '(c', o) := drain (rcv_core2 n) (proc_core2 n) OOk fuel c in (o, c')).
+Check C05_chan_readable_source_is_model : forall (ext_st : string -> list val -> val -> val * val) (n : N) (id high : val) (RS : core -> val -> Prop) (RM : msg -> val -> Prop) (RR : outcome -> val -> Prop), (forall m s : val, (exists u : val, snd (ext_st "self.process_channel_message" [id; m] s) = VC "Ok" [u]) \/ (exists e : val, snd (ext_st "self.process_channel_message" [id; m] s) = VC "Err" [e])) -> (forall (c : core) (s : val), RS c s -> RS (fst (rcv_core2 n c)) (fst (rcv_v2 ext_st id high s)) /\ step_rel RM RR (snd (rcv_core2 n c)) (snd (rcv_v2 ext_st id high s))) -> (forall (m : msg) (mv : val) (c : core) (s : val), RM m mv -> RS c s -> RS (fst (proc_core2 n m c)) (fst (proc_v2 ext_st id mv s)) /\ opt_rel RR (snd (proc_core2 n m c)) (snd (proc_v2 ext_st id mv s))) -> RR OOk VStuck -> forall (fuel : nat) (c : core) (self : val), RS c self -> RS (snd (chan_readable fuel n c)) (fst (gen_Inner_handle_channel_readable ext_st fuel self id high)) /\ RR (fst (chan_readable fuel n c)) (snd (gen_Inner_handle_channel_readable ext_st fuel self id high)).
 
 Print Assumptions C05_fatal_read.
 Print Assumptions C05_fatal_outcomes.
@@ -150,5 +165,8 @@ Print Assumptions C05_pass_source_is_model.
 Print Assumptions C05_ch0_drain_source_is_drain.
 Print Assumptions C05_ch0_readable_is_drain.
 Print Assumptions C05_ch0_readable_source_is_model.
+Print Assumptions C05_chan_drain_source_is_drain.
+Print Assumptions C05_chan_readable_is_drain.
+Print Assumptions C05_chan_readable_source_is_model.
 Print Assumptions C05_example.
 Print Assumptions C05_system_example.
